@@ -38,7 +38,12 @@ class Scanner:
         while self.pos < len(self.input):
             if self.state is not None:
                 try:
+                    state_pos = self.pos
                     self.state(self)
+                    if self.pos == state_pos:
+                        # a state that stops without consuming anything would be re-entered forever.
+                        self.start = self.pos
+                        raise ScannerException(f"Invalid Input {self.input[self.pos:]}", self.get_position())
                 except ScannerException as e:
                     # consume the rest of the current line
                     self.accept_run("\n\0", negate=True)
